@@ -28,6 +28,10 @@ MAX_STMTS = 80
 TRY_BRANCH = "std::ops::Try::branch"
 FROM_RESIDUAL = "std::ops::FromResidual::from_residual"
 CONVERSIONS = ("std::convert::From::from", "std::convert::Into::into")
+VARIANT_TESTS = {
+    "std::result::Result::<T, E>::is_ok": ("Ok", "Err"), "std::result::Result::<T, E>::is_err": ("Err", "Ok"),
+    "std::option::Option::<T>::is_some": ("Some", "None"), "std::option::Option::<T>::is_none": ("None", "Some"),
+}
 
 
 def _const_bool(st):
@@ -91,6 +95,11 @@ def _step(env, st, roots=None):
         c = _const_bool(st)
         if c is not None:
             new[l] = (c, None)
+    elif r == "ref" and rv.get("bk") not in ("mut",) and "Mut" not in str(rv.get("bk")) and not rv["place"]["proj"]:
+        # a shared reference to a local: what is known about the local is looked up when the reference is used
+        new[l] = (("refto", rv["place"]["l"]), None)
+    elif r == "ref" and not rv["place"]["proj"] == [] and [p_.get("p") for p_ in rv["place"]["proj"]] == ["deref"] and isinstance(env.get(rv["place"]["l"]), tuple) and env[rv["place"]["l"]][0] == "refto":
+        new[l] = (env[rv["place"]["l"]], rv["place"]["l"])     # reborrow
     elif r == "aggregate" and rv.get("ak") == "adt" and rv.get("variant") is not None:
         new[l] = (("variant", rv["variant"]), None)
         for i, op in enumerate(rv.get("ops", [])):   # what is known about the payload travels with it
@@ -152,6 +161,19 @@ def _call_knowledge(body, env, t):
                 return ("variant", "Continue")
             if k[1] in ("Err", "None"):
                 return ("variant", "Break")
+        return None
+    if path in VARIANT_TESTS and len(t["args"]) == 1:
+        # x.is_ok() / is_err() / is_some() / is_none() on a value whose variant is known on this path
+        src = _plain_local(t["args"][0])
+        k = env.get(src)
+        if isinstance(k, tuple) and k[0] == "refto":
+            k = env.get(k[1])
+        if isinstance(k, tuple) and k[0] == "variant":
+            yes, no = VARIANT_TESTS[path]
+            if k[1] == yes:
+                return True
+            if k[1] == no:
+                return False
         return None
     if path == FROM_RESIDUAL and len(t["args"]) == 1:
         ty = body.locals[t["dest"]["l"]]["ty"]
@@ -282,8 +304,6 @@ def thread_bools(body):
             continue
         t0 = bl["term"]
         roots = {}
-        if not _seed_env(body, bl, {}) and not (t0["t"] == "call" and t0.get("callee", {}).get("path") in (TRY_BRANCH, FROM_RESIDUAL)):
-            continue      # nothing of known shape is stored here
         edge_env = _edge_env(blocks, preds, d, roots)
         if t0["t"] == "goto":
             env = _seed_env(body, bl, roots, edge_env)
